@@ -5,6 +5,7 @@ CONSTANTS
   MaxLen = 3
   IdxSlack = 2
   MaxPairs = 0
+  LitSizes = {}
 INVARIANTS TypeOK
 VIEW View
 ACTION_CONSTRAINT EmitHistAC
